@@ -396,10 +396,27 @@ func (p *Protocol) enqueueMessage(msg Message, deliveryChan chan error) error {
 		limit = entry.PendingMessageByteLimit
 	}
 	p.pendingBytesMu.Lock()
-	if limit > 0 && p.pendingSendBytes+msgLen > limit {
+	// Apply backpressure to the local caller instead of failing the protocol:
+	// wait for sendLoop to drain the queue (mirrors the receive side in
+	// readLoop). Our own send queue filling up is not a protocol violation by
+	// anyone. A message larger than the limit is let through once the queue is
+	// empty, otherwise it could never be sent.
+	for limit > 0 && p.pendingSendBytes > 0 && p.pendingSendBytes+msgLen > limit {
 		p.pendingBytesMu.Unlock()
-		p.SendError(ErrProtocolViolationQueueExceeded)
-		return ErrProtocolViolationQueueExceeded
+		select {
+		case <-p.stopChan:
+			return ErrProtocolShuttingDown
+		case <-p.doneChan:
+			return ErrProtocolShuttingDown
+		case <-p.muxerDoneChan:
+			return ErrProtocolShuttingDown
+		case <-p.recvDoneChan:
+			return ErrProtocolShuttingDown
+		case <-p.sendDoneChan:
+			return ErrProtocolShuttingDown
+		case <-time.After(time.Millisecond):
+		}
+		p.pendingBytesMu.Lock()
 	}
 	p.pendingSendBytes += msgLen
 	p.pendingBytesMu.Unlock()
